@@ -1186,10 +1186,13 @@ def main():
     repo, outdir = sys.argv[1], sys.argv[2]
     os.makedirs(outdir, exist_ok=True)
     failed = []
-    for name, fn in GENERATORS:
+    sys.path.insert(0, os.path.dirname(os.path.abspath(__file__)))
+    import ctx2lean   # the state machine (statement-level translation); shares this module's helpers
+    gens = GENERATORS + [('Ctx.lean', ctx2lean.gen_ctx)]
+    for name, fn in gens:
         try:
             text = fn(repo)
-        except TranslateError as e:
+        except (TranslateError, ctx2lean.TranslateError) as e:
             failed.append((name, str(e)))
             print(f'TRANSLATE-ERROR {name}: {e}')
             continue
